@@ -159,7 +159,18 @@ def handle (op : String) (j : Json) : Except String Json := do
   | "msflow" =>
     let fid ← str j "flow_id"
     let body ← str j "body"
-    pure (Json.mkObj [("src", js (dynamicFlowSource fid body))])
+    -- the parser's OBSERVED behaviour on the dynamic source: "flows": [ids] when it returned, absent when it raised;
+    -- "next_raised": compute_next_steps raised afterwards
+    let parse : ParseOracle Unit := match j.getObjVal? "flows" with
+      | .ok (.arr a) => fun _ => .ok (a.toList.map fun e => match e.getStr? with | .ok x => x.toList | _ => [])
+      | _ => fun _ => .error ()
+    let nextRaised := match j.getObjVal? "next_raised" with | .ok (.bool b) => b | _ => false
+    let ns : Str → Except Unit (List Ev) := if nextRaised then fun _ => .error () else fun _ => .ok [.step 0]
+    let res : String := match processStartFlowE parse ns fid body with
+      | .error _ => "raised"
+      | .ok [.botIntent _] => "fallback"
+      | .ok _ => "next"
+    pure (Json.mkObj [("src", js (dynamicFlowSource fid body)), ("res", Json.str res)])
   | "all" =>
     let s ← str j "s"
     let p ← parserOf ((optStr j "parser").getD "none")
